@@ -3,6 +3,19 @@
 
 namespace dsplib {
 
+#ifdef DSPLIB_VERIF
+//verification hook: number of trial divisions / generated primes performed by the calling thread
+namespace verif {
+thread_local uint64_t prime_steps = 0;
+uint64_t prime_steps_read() {
+    return prime_steps;
+}
+}   // namespace verif
+#define DSPLIB_VERIF_PRIME_STEP() (++verif::prime_steps)
+#else
+#define DSPLIB_VERIF_PRIME_STEP() ((void)0)
+#endif
+
 namespace {
 
 constexpr std::array<uint8_t, 54> PRIMES = {2,   3,   5,   7,   11,  13,  17,  19,  23,  29,  31,  37,  41,  43,
@@ -41,6 +54,7 @@ public:
 private:
     bool _is_prime(uint32_t n) const noexcept {
         for (auto d : _primes) {
+            DSPLIB_VERIF_PRIME_STEP();
             if (d * d > n) {
                 break;
             }
@@ -96,6 +110,7 @@ bool isprime(uint32_t n) noexcept {
     PrimesGenerator gen;
     auto d = gen.current();
     while (d * d <= n) {
+        DSPLIB_VERIF_PRIME_STEP();
         if (n % d == 0) {
             return false;
         }
@@ -114,6 +129,7 @@ arr_int factor(uint32_t n) {
     PrimesGenerator gen;
     uint32_t d = gen.current();
     while (d * d <= n) {
+        DSPLIB_VERIF_PRIME_STEP();
         while (n % d == 0) {
             n /= d;
             res.push_back(d);
